@@ -1,7 +1,7 @@
 (* C17 — Governance: only the listed owner changes a parameter or moves DAO funds. Statements only. *)
 From Coq Require Import List ZArith NArith Bool.
 From PM Require Import Base.Bytes Store.KV Store.MergeProofs Num.IntModel Num.DecModel Num.DecProofs
-  App.Model App.BankProofs App.TxProofs App.KeyProofs App.Examples.
+  App.Model App.BankProofs App.TxProofs App.KeyProofs App.GovProofs App.Examples.
 Import ListNotations.
 Local Open Scope Z_scope.
 
@@ -18,9 +18,22 @@ Theorem C17_dao_needs_owner s f t amt act s' : handle s (MDao f t amt act) = HOk
   ((act = 1%N /\ bank_send s (m_dao (ma s)) t amt = Some s') \/ (act = 2%N /\ bank_burn s (m_dao (ma s)) amt = Some s')) /\
   0 <= amt <= bal s (m_dao (ma s)).
 Proof. exact (dao_needs_owner s f t amt act s'). Qed.
+(* over the whole block cycle: NO operation (BeginBlock with votes / evidence / rewards / burns, EndBlock, awards,
+   burns, commits, any other transaction) changes any parameter, the ACL, the DAO owner or the upgrade plan -
+   only a delivered change-parameter / upgrade transaction whose sender is the ACL owner of that key *)
+Theorem C17_only_the_owners_tx_changes_parameters s o s' : step s o = Some s' -> gov_view s' <> gov_view s ->
+  exists t s1, o = OTx t /\ ante s t = Some s1 /\ acl s1 = acl s /\
+    ((exists f key v raw wf, t_msg t = MChangeParam f key v raw wf /\ beqb (owner_of (acl s) key) f = true /\ msg_signer (t_msg t) = f) \/
+     (exists f h raw, t_msg t = MUpgrade f h raw /\ beqb (owner_of (acl s) [103;111;118;47;117;112;103;114;97;100;101]%N) f = true)).
+Proof. exact (params_change_only_by_owner_tx s o s'). Qed.
+Theorem C17_begin_block_changes_no_parameter s h t prop votes evs s' : begin_block s h t prop votes evs = Some s' -> gov_view s' = gov_view s.
+Proof. exact (gv_begin_block s h t prop votes evs s'). Qed.
+Theorem C17_end_block_changes_no_parameter s s' ups : end_block s = Some (s', ups) -> gov_view s' = gov_view s.
+Proof. exact (gv_end_block s s' ups). Qed.
 Example C17_ex : match ex_genesis with
   | Some (s, _) => handle s (MDao A2 A3 5 1) = HErr s /\ (exists s', handle s (MDao A1 A3 5 1) = HOk s' /\ bal s' DAO = 495)
   | None => False end.
 Proof. vm_compute. split; [reflexivity|eexists; split; reflexivity]. Qed.
 Print Assumptions C17_params_change_needs_owner.
 Print Assumptions C17_dao_needs_owner.
+Print Assumptions C17_only_the_owners_tx_changes_parameters.
